@@ -80,11 +80,12 @@ def main():
         if name:
             dest = os.path.join(VERIF, "seeded", name)
             os.makedirs(dest, exist_ok=True)
-            shutil.copy(patch, os.path.join(dest, "patch.diff"))
-            shutil.copy(demo, os.path.join(dest, "demo.py"))
-            notes = os.path.join(seed_dir, "NOTES.md")
-            if os.path.exists(notes):
-                shutil.copy(notes, os.path.join(dest, "NOTES.md"))
+            if os.path.realpath(os.path.dirname(patch)) != os.path.realpath(dest):
+                shutil.copy(patch, os.path.join(dest, "patch.diff"))
+                shutil.copy(demo, os.path.join(dest, "demo.py"))
+                notes = os.path.join(seed_dir, "NOTES.md")
+                if os.path.exists(notes):
+                    shutil.copy(notes, os.path.join(dest, "NOTES.md"))
             meta.pop("seed_dir", None)
             meta["what_was_run"] = ("scratch copy of /repo + git apply patch.diff; pytest tests (testNMEA deselected); "
                                     "demo.py against unchanged and changed tree; quick checks with VP_REPO_SRC=<copy>/src")
